@@ -725,6 +725,7 @@ func structuralObligation(w *World, ms *ModSets, st *Structural) *Obligation {
 		allowed[a] = true
 	}
 	var bad []string
+	sites := 0
 	switch st.Kind {
 	case "callers":
 		o.Desc = "every call of " + st.Target + " is made from: " + strings.Join(st.Allowed, ", ")
@@ -748,17 +749,29 @@ func structuralObligation(w *World, ms *ModSets, st *Structural) *Obligation {
 						if !ok {
 							continue
 						}
-						if matchCallee(st, f, nil) && !allowed[key] && !allowed[tkey] {
-							bad = append(bad, key+" ("+w.pos(in.Pos())+")")
+						if matchCallee(st, f, nil) {
+							sites++
+							if !allowed[key] && !allowed[tkey] {
+								bad = append(bad, key+" ("+w.pos(in.Pos())+")")
+							}
 						}
 					}
 					if ci, ok := in.(ssa.CallInstruction); ok && ci.Common().IsInvoke() {
-						if matchCallee(st, nil, ci.Common()) && !allowed[key] && !allowed[tkey] {
-							bad = append(bad, key+" ("+w.pos(in.Pos())+")")
+						if matchCallee(st, nil, ci.Common()) {
+							sites++
+							if !allowed[key] && !allowed[tkey] {
+								bad = append(bad, key+" ("+w.pos(in.Pos())+")")
+							}
 						}
 					}
 				}
 			}
+		}
+		if sites == 0 && len(st.Allowed) > 0 {
+			// vacuity guard: a whitelist for something that is never called refers to nothing (renamed? misspelt?)
+			o.Status = "error"
+			o.Model = "no call site of " + st.Target + " found: the callers obligation is vacuous"
+			return o
 		}
 	case "writers":
 		o.Desc = "every store to " + st.Target + " is made from: " + strings.Join(st.Allowed, ", ")
@@ -895,6 +908,10 @@ func matchCallee(st *Structural, f *ssa.Function, cc *ssa.CallCommon) bool {
 	}
 	if f == nil {
 		return false
+	}
+	if strings.HasPrefix(t, "lib.") {
+		// one library function or method, named as go/ssa prints it: lib.(*path/to/pkg.T).M or lib.path/to/pkg.F
+		return !inModule(f) && "lib."+f.String() == t
 	}
 	return inModule(f) && funcKey(f) == qualify(st.Pkg, t)
 }
